@@ -38,12 +38,7 @@ impl Srcloc {
 // proved in unit `srcloc` (same contract)
 //@ extract fn ext from src/compiler/srcloc.rs in impl Srcloc
 //@ stub
-//@ sig r
-    requires self.col < usize::MAX, other.col < usize::MAX
-    ensures
-        other.file != self.file ==> r == *self,
-        other.file == self.file ==> sstart(r) == pmin(sstart(*self), sstart(*other))
-            && ple(send(r), pmax(send(*self), send(*other))) && r.file == self.file,
+//@ sigfile r contracts/srcloc_ext.sig
 //@ end
 // proved in unit `srcloc` (same contract)
 //@ extract fn advance from src/compiler/srcloc.rs in impl Srcloc
